@@ -1,7 +1,7 @@
-"""C10 -- login completes correctly for every order of optional server
-steps.  LoginReactor.react is a stateless dispatch on the packet kind, so
-"every order" reduces to per-arm obligations that hold on all paths of the
-arm."""
+"""C10 -- login completes under optional server steps.  Every path of
+LoginReactor.react is summarised (vp.pathsum) and grouped by the packet name
+its decisions select; each arm is checked for the dataflow and ordering
+obligations the login protocol puts on it."""
 import ast
 import re
 
@@ -10,21 +10,25 @@ from ..callgraph import CallGraph
 from ..connmodel import ConnModel, CONN
 from ..cfg import cfg_of
 from ..protocol import Proto
-from .. import shared, boolfn
-from ..terms import SymEval, TupleT, MethT, Sym
+from .. import shared, boolfn, pathsum
+from ..pathsum import struct, show, is_const, subterms, path_terms
 
 ENC = 'minecraft.networking.encryption'
 
 
 def run(report, db, tier):
     report.explanation = (
-        'Each arm of LoginReactor.react is checked for the dataflow and '
-        'ordering obligations the login protocol puts on it; because the '
-        'dispatch is stateless these per-arm facts hold for every order of '
+        'Every path of LoginReactor.react is summarised (effects in order, '
+        'decisions in normal form, values as terms over the packet\'s '
+        'fields, helpers inlined) and grouped by the packet name it '
+        'handles; each arm is checked for the dataflow and ordering '
+        'obligations the login protocol puts on it.  Because the dispatch '
+        'keeps no state these per-arm facts hold for every order of '
         'optional server steps.')
     cg = CallGraph(db)
     M = ConnModel(db, cg)
     P = Proto(db)
+    S = shared.summariser(db, cg)
     lr = db.get_class(CONN, 'LoginReactor')
     fi = db.own_method(lr, 'react')
     if fi is None:
@@ -32,33 +36,38 @@ def run(report, db, tier):
     R7 = report.rule('R10.7', 'every compared packet_name exists in the '
                      'login table and the arm reads only fields of that '
                      'class')
-    arms = shared.name_agreement(report, R7, db, P, lr, 'login', M)
-    report.floor('login arms', len(arms), 5)
+    paths = shared.name_agreement_ps(report, R7, db, P, S, lr, 'login')
+    pk = ('sym', fi.params[1])
+    arms = {}
+    for p in paths:
+        arms.setdefault(shared.arm_of(p, pk), []).append(p)
+    report.floor('login arms', len([a for a in arms if a is not None]), 5) \
+        if not report.violations else None
     R8 = report.rule('R10.8', 'packets written by the login reactor and by '
                      'connect() have every field set')
-    n = shared.field_completeness(report, R8, db, cg, P, M, fi)
-    n += shared.field_completeness(report, R8, db, cg, P, M,
-                                   M.conn_method('connect'))
-    n += shared.field_completeness(report, R8, db, cg, P, M,
-                                   M.conn_method('_handshake'))
+    n = shared.field_completeness_ps(report, R8, db, P, S, fi, paths)
+    n += shared.field_completeness_ps(report, R8, db, P, S,
+                                      M.conn_method('connect'))
+    n += shared.field_completeness_ps(report, R8, db, P, S,
+                                      M.conn_method('_handshake'))
     report.floor('login/connect write sites checked', n, 4)
-    facts = encryption_arm(report, db, cg, M, fi, arms)
-    compression_arm(report, db, cg, M, fi, arms)
-    plugin_arm(report, db, cg, M, fi, arms)
-    success_arm(report, db, cg, M, fi, arms)
-    disconnect_arm(report, db, cg, M, fi, arms)
-    stateless(report, db, cg, M, fi, lr)
+    encryption_arm(report, db, M, P, fi, arms)
+    compression_arm(report, db, M, fi, arms)
+    plugin_arm(report, db, M, P, fi, arms)
+    success_arm(report, db, M, fi, arms)
+    disconnect_arm(report, db, S, M, fi, arms)
+    stateless(report, db, M, fi, paths)
     transport_lookup(report, db, cg, M)
 
 
-def arm_nodes(g, st):
-    """CFG nodes belonging to the body of If statement `st`."""
-    inside = set()
-    for s in st.body:
-        for x in ast.walk(s):
-            inside.add(id(x))
-    return [n for n in g.reachable_nodes() if n.ast is not None
-            and id(n.ast) in inside]
+def sy(n):
+    return ('sym', n)
+
+
+def at(base, *names):
+    for n in names:
+        base = ('attr', base, n)
+    return base
 
 
 def find_calls(stmts, pred):
@@ -70,559 +79,505 @@ def find_calls(stmts, pred):
     return out
 
 
-def assigned_from(stmts, call):
-    for s in stmts:
-        for x in ast.walk(s):
-            if isinstance(x, ast.Assign) and x.value is call:
-                return x.targets[0]
-    return None
+def unit_calls(p, modname, name):
+    return [e for e in p.flat(('call',)) if any(
+        t.name == name and t.module.name == modname
+        for t in (e.targets or ()))]
 
 
-def encryption_arm(report, db, cg, M, fi, arms):
+def bound_args(e, skip_self=False):
+    """parameter name -> argument term for a call event with one target"""
+    t = e.targets[0]
+    params = list(t.params)
+    args = list(e.args)
+    if t.kind in ('instance', 'class') and len(args) < len(params):
+        params = params[1:]
+    out = dict(zip(params, args))
+    out.update(dict(e.kwargs))
+    return out
+
+
+# ---------------------------------------------------------------------------
+def encryption_arm(report, db, M, P, fi, arms):
     R = report.rule('R10.1', 'encryption arm: one fresh secret flows to '
                     'RSA encryption, hash and cipher; response fields in '
                     'the right slots; forced write precedes both wrapper '
                     'installations; join before the response')
-    if 'encryption request' not in arms:
+    ps = arms.get('encryption request')
+    if not ps:
         report.violation(R, 'enc:missing', fi.path, fi.node, fi.qualname,
                          'no arm for the encryption request')
-        return None
-    st, body = arms['encryption request']
-    pk = fi.params[1]
-    g = cfg_of(fi)
+        return
+    me, pk = sy(fi.params[0]), sy(fi.params[1])
+    conn = at(me, 'connection')
+    prob = {}
 
-    def callee_is(c, mod, name):
-        return any(m.name == name and m.module.name == mod
-                   for m, _, _ in cg.callee_funcs(fi, c))
-    gen = find_calls(body, lambda c: callee_is(c, ENC,
-                                               'generate_shared_secret'))
-    if len(gen) != 1:
-        report.violation(R, 'enc:secret-count', fi.path, st, fi.qualname,
-                         'the arm generates %d secrets: the one sent to the '
-                         'server and the one keying the cipher must be the '
-                         'same fresh value' % len(gen))
-        return None
-    sec_t = assigned_from(body, gen[0])
-    if not isinstance(sec_t, ast.Name):
-        report.violation(R, 'enc:secret-binding', fi.path, gen[0],
-                         fi.qualname, 'the secret is not bound to a local')
-        return None
-    sec = sec_t.id
-    # the secret is fresh on every path and never outlives the arm
-    other = []
-    kept = []
-    for s_ in body:
-        for x in ast.walk(s_):
-            if isinstance(x, ast.Assign):
-                for t in x.targets:
-                    if isinstance(t, ast.Name) and t.id == sec and \
-                            x.value is not gen[0]:
-                        other.append(x)
-                    if isinstance(t, (ast.Attribute, ast.Subscript)) and \
-                            isinstance(x.value, ast.Name) and \
-                            x.value.id == sec:
-                        kept.append(x)
-    gnodes = M.cfg_nodes_of(fi, gen[0])
-    tests_ = [n for n in g.reachable_nodes() if n.kind == 'test'
-              and n.ast is st.test]
-    always = bool(gnodes) and bool(tests_) and all(
-        not [c for c in boolfn.path_conditions(g, n)
-             if c[0] is not st.test and 'packet_name' not in
-             ast.unparse(c[0])] for n in gnodes)
-    if other or kept or not always:
-        x = (other or kept or [gen[0]])[0]
-        report.violation(R, 'enc:secret-not-fresh', fi.path, x, fi.qualname,
-                         'the shared secret is not generated afresh on '
-                         'every encryption request (%s): a reconnect on the '
-                         'same object reuses key and IV' % (
-                             'taken from elsewhere: %s' % ast.unparse(
-                                 other[0]) if other else
-                             'stored beyond the arm: %s' % ast.unparse(
-                                 kept[0]) if kept else
-                             'generated only under a condition'))
-    else:
-        report.ok(R, 'secret = generate_shared_secret() on every path of '
-                  'the arm, kept only in a local')
-    facts = dict(secret=sec)
-    # ---- RSA encryption
-    enc = find_calls(body, lambda c: callee_is(c, ENC,
-                                               'encrypt_token_and_secret'))
-    efi = db.get_func(ENC, 'encrypt_token_and_secret')
-    if len(enc) != 1:
-        report.violation(R, 'enc:rsa-call', fi.path, st, fi.qualname,
-                         'expected one encrypt_token_and_secret call')
-        return facts
-    from ..terms import map_args
-    am = map_args(efi, enc[0])
-    if am is None:
-        raise AnalysisError('cannot map arguments of '
-                            'encrypt_token_and_secret', enc[0],
-                            rel(fi.path))
-    got = {k: ast.unparse(v) for k, v in am.items()}
-    want = dict(zip(efi.params, ['%s.public_key' % pk,
-                                 '%s.verify_token' % pk, sec]))
-    if got == want:
-        report.ok(R, 'encrypt_token_and_secret(%s)' % ', '.join(
-            '%s=%s' % kv for kv in sorted(got.items())))
-    else:
-        report.violation(R, 'enc:rsa-args', fi.path, enc[0], fi.qualname,
-                         'RSA helper called with %s; expected %s'
-                         % (got, want))
-    # which returned item is which
-    term = SymEval(db).run(efi)
-    roles = []
-    if isinstance(term, TupleT):
-        for it in term.items:
-            if isinstance(it, MethT) and it.name == 'encrypt' and it.args \
-                    and isinstance(it.args[0], Sym):
-                roles.append(it.args[0].name)
+    def bad(key, node, msg):
+        prob.setdefault(key, (node, msg))
+    oks = set()
+    modes = set()
+    S_roles = shared.summariser(db, M.cg)
+    # the helper returns (encrypted token, encrypted secret) in that order
+    helper = db.get_func(ENC, 'encrypt_token_and_secret')
+    hp = helper.params
+    for p in S_roles.run(helper):
+        if not p.returns:
+            continue
+        v = p.value
+        good = v[0] in ('tuple', 'list') and len(v[1]) == 2 and len(hp) == 3
+        if good:
+            for i, (own, other) in enumerate(((hp[1], hp[2]),
+                                              (hp[2], hp[1]))):
+                syms = set(t[1] for t in subterms(v[1][i])
+                           if t[0] == 'sym')
+                if own not in syms or other in syms:
+                    good = False
+        if not good:
+            bad('enc:response-slots', helper.node, 'encrypt_token_and_'
+                'secret returns %s; callers take element 0 as the encrypted '
+                'verify token and element 1 as the encrypted secret'
+                % show(v))
+    for p in ps:
+        if not p.returns:
+            continue
+        evs = p.flat(('call', 'store'))
+        gen = unit_calls(p, ENC, 'generate_shared_secret')
+        if len(gen) != 1:
+            bad('enc:secret-count', fi.node, 'the arm generates %d secrets '
+                'on the path [%s]: the one sent to the server and the one '
+                'keying the cipher must be the same fresh value'
+                % (len(gen), p.cond_text()))
+            continue
+        secret = gen[0].res
+        # the secret never outlives the arm
+        kept = [e for e in evs if e.kind == 'store' and e.base[0] != 'obj'
+                and any(t == secret for t in subterms(e.value))]
+        if kept:
+            bad('enc:secret-not-fresh', kept[0].node, 'the shared secret is '
+                'stored on %s.%s: it must be generated afresh for every '
+                'encryption request and not kept'
+                % (show(kept[0].base), kept[0].attr))
+        enc = unit_calls(p, ENC, 'encrypt_token_and_secret')
+        if len(enc) != 1:
+            bad('enc:rsa-call', fi.node, 'expected one '
+                'encrypt_token_and_secret call, found %d' % len(enc))
+            continue
+        ea = bound_args(enc[0])
+        want = {'pubkey': at(pk, 'public_key'),
+                'verification_token': at(pk, 'verify_token')}
+        names = list(enc[0].targets[0].params)
+        got = {k: struct(v) for k, v in ea.items()}
+        if len(names) != 3 or got.get(names[0]) != want['pubkey'] or \
+                got.get(names[1]) != want['verification_token'] or \
+                ea.get(names[2]) != secret:
+            bad('enc:rsa-args', enc[0].node, 'encrypt_token_and_secret is '
+                'given (%s); expected the server\'s public key, its verify '
+                'token and the fresh secret' % ', '.join(
+                    '%s=%s' % (k, show(v)) for k, v in sorted(ea.items())))
+        # secret sources anywhere else: only the generated one
+        for e in unit_calls(p, ENC, 'create_AES_cipher') + unit_calls(
+                p, ENC, 'generate_verification_hash'):
+            pass
+        # the response
+        writes = shared.written_packets(p, P, db)
+        resp = [w for w in writes
+                if w[1][2].split('.')[-1] == 'EncryptionResponsePacket']
+        if len(writes) != 1 or len(resp) != 1:
+            bad('enc:response' if len(resp) != 1 else 'enc:write-count',
+                fi.node, 'expected one EncryptionResponsePacket to be '
+                'written, found %s' % [w[1][2] for w in writes])
+            continue
+        w, o, fields = resp[0]
+        tok = ('op', 'index', (enc[0].res, ('const', 0)))
+        sec = ('op', 'index', (enc[0].res, ('const', 1)))
+        if fields.get('verify_token') != tok or \
+                fields.get('shared_secret') != sec:
+            bad('enc:response-slots', w.node, 'the response carries '
+                'verify_token=%s, shared_secret=%s; encrypt_token_and_'
+                'secret returns (token, secret) in that order' % (
+                    show(fields.get('verify_token')) if 'verify_token'
+                    in fields else None,
+                    show(fields.get('shared_secret')) if 'shared_secret'
+                    in fields else None))
+        wa = bound_args(w)
+        if wa.get('force') != ('const', True):
+            bad('enc:not-forced', w.node, 'the encryption response is '
+                'queued, not written immediately: the thread then enables '
+                'the cipher and the response itself goes out encrypted')
+        wi = evs.index(w)
+        # the cipher and the wrappers
+        ciph = unit_calls(p, ENC, 'create_AES_cipher')
+        if len(ciph) != 1 or not ciph[0].args and not ciph[0].kwargs or \
+                list(bound_args(ciph[0]).values())[:1] != [secret]:
+            bad('enc:cipher-secret', (ciph[0].node if ciph else fi.node),
+                'the cipher is keyed with %s, not with the secret that was '
+                'sent to the server' % ([show(a) for a in ciph[0].args]
+                                        if ciph else 'nothing'))
+            continue
+        c = ciph[0].res
+        encs = [e for e in evs if e.kind == 'call' and e.fn == (
+            'attr', c, 'encryptor')]
+        decs = [e for e in evs if e.kind == 'call' and e.fn == (
+            'attr', c, 'decryptor')]
+        if len(encs) != 1 or len(decs) != 1:
+            bad('enc:cipher-contexts', ciph[0].node, 'the cipher yields %d '
+                'encryptor(s) and %d decryptor(s) per login; exactly one '
+                'of each must live in the wrappers (CFB8 state is '
+                'continuous)' % (len(encs), len(decs)))
+            continue
+        for attr, cname, args in (
+                ('socket', 'EncryptedSocketWrapper',
+                 {'actual_socket': at(conn, 'socket'),
+                  'encryptor': encs[0].res, 'decryptor': decs[0].res}),
+                ('file_object', 'EncryptedFileObjectWrapper',
+                 {'actual_file_object': at(conn, 'file_object'),
+                  'decryptor': decs[0].res})):
+            sts = [e for e in evs if e.kind == 'store'
+                   and struct(e.base) == conn and e.attr == attr]
+            if len(sts) != 1:
+                bad('enc:not-wrapped:%s' % attr, fi.node, 'connection.%s '
+                    'is not replaced by the cipher wrapper' % attr)
+                continue
+            if evs.index(sts[0]) < wi:
+                bad('enc:wrapper-before-write:%s' % attr, sts[0].node,
+                    'connection.%s is wrapped before the response is '
+                    'written: the response itself goes out encrypted'
+                    % attr)
+            v = sts[0].value
+            if not (v[0] == 'obj' and v[2].split('.')[-1] == cname):
+                bad('enc:wrapper-class:%s' % attr, sts[0].node,
+                    'connection.%s becomes %s, not an %s' % (attr, show(v),
+                                                             cname))
+                continue
+            inits = {}
+            for e in evs[:evs.index(sts[0])]:
+                if e.kind == 'store' and e.base == v:
+                    inits[e.attr] = e.value
+            # which attribute of the wrapper plays which role is read off
+            # its own methods (the one whose update() feeds send is the
+            # encryptor, ...)
+            roles = wrapper_roles(db, S_roles, v[3])
+            wantv = {}
+            if attr == 'socket':
+                wantv = {roles.get('raw'): at(conn, 'socket'),
+                         roles.get('enc'): encs[0].res,
+                         roles.get('dec'): decs[0].res}
             else:
-                roles.append(None)
-    tgt = assigned_from(body, enc[0])
-    if not (isinstance(tgt, ast.Tuple) and len(tgt.elts) == len(roles) == 2
-            and all(isinstance(e, ast.Name) for e in tgt.elts)
-            and None not in roles):
-        raise AnalysisError('encrypt_token_and_secret: result/unpacking '
-                            'shape not recognised', enc[0], rel(fi.path))
-    var_of = {role: e.id for role, e in zip(roles, tgt.elts)}
-    enc_token = var_of.get(efi.params[1])
-    enc_secret = var_of.get(efi.params[2])
-    # ---- response packet fields
-    built = shared.constructed_packets(db, cg, Proto_cache(db), fi)
-    resp = [k for k, (ci, kw, n) in built.items()
-            if ci.name == 'EncryptionResponsePacket']
-    if len(resp) != 1:
-        report.violation(R, 'enc:response', fi.path, st, fi.qualname,
-                         'expected one EncryptionResponsePacket')
-        return facts
-    rv = resp[0]
-    slots = {}
-    ci, kw, asn = built[rv]
-    for k in asn.value.keywords:
-        slots[k.arg] = ast.unparse(k.value)
-    for s in body:
-        for x in ast.walk(s):
-            if isinstance(x, ast.Assign) and len(x.targets) == 1 and \
-                    isinstance(x.targets[0], ast.Attribute) and \
-                    isinstance(x.targets[0].value, ast.Name) and \
-                    x.targets[0].value.id == rv:
-                slots[x.targets[0].attr] = ast.unparse(x.value)
-    if slots.get('shared_secret') == enc_secret and \
-            slots.get('verify_token') == enc_token:
-        report.ok(R, 'response.shared_secret = encrypted secret, '
-                  'response.verify_token = encrypted token')
-    else:
-        report.violation(R, 'enc:response-slots', fi.path, asn, fi.qualname,
-                         'response fields are %s; shared_secret must carry '
-                         'the encrypted secret (%s) and verify_token the '
-                         'encrypted token (%s)' % (slots, enc_secret,
-                                                   enc_token))
-    # ---- forced write, before the wrappers
-    writes = find_calls(body, lambda c: isinstance(c.func, ast.Attribute)
-                        and c.func.attr == 'write_packet')
-    wr = [w for w in writes if w.args and ast.unparse(w.args[0]) == rv]
-    if len(wr) != 1 or len(writes) != 1:
-        report.violation(R, 'enc:write-count', fi.path, st, fi.qualname,
-                         'the arm must write exactly the encryption '
-                         'response once (found %d writes)' % len(writes))
-        return facts
-    w = wr[0]
-    forced = any(k.arg == 'force' and isinstance(k.value, ast.Constant)
-                 and k.value.value is True for k in w.keywords) or (
-                     len(w.args) > 1 and isinstance(w.args[1], ast.Constant)
-                     and w.args[1].value is True)
-    if forced:
-        report.ok(R, 'write_packet(response, force=True)')
-    else:
-        report.violation(R, 'enc:not-forced', fi.path, w, fi.qualname,
-                         'the response is queued, not forced: by the time '
-                         'the queue is drained the socket is already '
-                         'encrypting, so the server receives garbage')
-    wn = M.cfg_nodes_of(fi, w)
-    installs = {}
-    for s in body:
-        for x in ast.walk(s):
-            if isinstance(x, ast.Assign) and len(x.targets) == 1 and \
-                    isinstance(x.targets[0], ast.Attribute) and \
-                    x.targets[0].attr in ('socket', 'file_object') and \
-                    M.is_conn_expr(fi, x.targets[0].value):
-                installs[x.targets[0].attr] = x
-    facts['installs'] = installs
-    for attr in ('socket', 'file_object'):
-        if attr not in installs:
-            report.violation(R, 'enc:not-wrapped:%s' % attr, fi.path, st,
-                             fi.qualname, 'connection.%s is not replaced by '
-                             'a cipher wrapper: %s stays in clear text'
-                             % (attr, 'sending' if attr == 'socket'
-                                else 'receiving'))
+                wantv = {roles.get('raw'): at(conn, 'file_object'),
+                         roles.get('dec'): decs[0].res}
+            okw = None not in wantv
+            for a_, w_ in wantv.items():
+                x = inits.get(a_)
+                if x is None or not (x == w_ or (w_[0] != 'call' and
+                                                 struct(x) == struct(w_))):
+                    okw = False
+            if not okw:
+                bad('enc:wrapper-args:%s' % attr, sts[0].node, 'the %s is '
+                    'built as %s; expected the current connection.%s as the '
+                    'wrapped object and the login\'s single %s in the '
+                    'slots its methods use for them (%s)' % (cname, {
+                        k: show(x) for k, x in sorted(inits.items())}, attr,
+                        'encryptor/decryptor pair' if attr == 'socket'
+                        else 'decryptor (shared with the socket wrapper)',
+                        roles))
+        # the session-server join
+        online = None
+        for a, pol, _ in p.conds:
+            if a[1] == '==' and set(struct(x) for x in a[2]) == {
+                    at(pk, 'server_id'), ('const', '-')}:
+                online = not pol
+        joins = [e for e in evs if e.kind == 'call' and e.method() == 'join'
+                 and any(t[0] == 'attr' and t[2] == 'auth_token'
+                         for t in subterms(e.fn))]
+        has_token = None
+        tokp = at(conn, 'auth_token')
+        for a, pol, _ in p.conds:
+            if a[1] == 'is' and struct(a[2][0]) == tokp and \
+                    a[2][1] == ('const', None):
+                has_token = not pol
+            if a[1] == 'truth' and struct(a[2][0]) == tokp:
+                has_token = pol
+        modes.add((online, has_token))
+        if online is None:
+            bad('enc:join-guard', fi.node, 'whether the session server is '
+                'joined does not depend on the server id ("-" = offline '
+                'mode)')
+        elif not online:
+            if joins:
+                bad('enc:join-guard', joins[0].node, 'the session server '
+                    'is joined although the server announced offline mode')
+        elif has_token is not False:
+            if len(joins) != 1:
+                bad('enc:join-count', fi.node, 'the session server is '
+                    'joined %d times for an online-mode server [%s]' % (
+                        len(joins), p.cond_text()))
+            else:
+                j = joins[0]
+                hs = unit_calls(p, ENC, 'generate_verification_hash')
+                ha = bound_args(hs[0]) if len(hs) == 1 else {}
+                hn = list(hs[0].targets[0].params) if len(hs) == 1 else []
+                good_hash = len(hs) == 1 and len(hn) == 3 and \
+                    struct(ha.get(hn[0])) == at(pk, 'server_id') and \
+                    ha.get(hn[1]) == secret and \
+                    struct(ha.get(hn[2])) == at(pk, 'public_key')
+                jarg = [a for a in j.args if a[0] == 'call']
+                if not good_hash or jarg != [hs[0].res]:
+                    bad('enc:join-hash', j.node, 'the join is made with %s; '
+                        'it must be generate_verification_hash(server id, '
+                        'the fresh secret, the server\'s public key)' % [
+                            show(a) for a in j.args])
+                if evs.index(j) > wi:
+                    bad('enc:join-after-response', j.node, 'the session '
+                        'server is joined after the response was sent: the '
+                        'server verifies the session as soon as it has the '
+                        'response')
+        elif joins:
+            bad('enc:join-guard', joins[0].node, 'join without a token')
+        if not prob:
+            oks.add(True)
+    for key, (node, msg) in sorted(prob.items()):
+        report.violation(R, key, fi.path, node, fi.qualname, msg)
+    if not prob and oks:
+        report.ok(R, 'one fresh secret -> encrypt_token_and_secret(public '
+                  'key, verify token, secret) -> response slots; forced '
+                  'write before the wrappers')
+        report.ok(R, 'cipher keyed by the same secret; one encryptor and '
+                  'one decryptor; EncryptedSocketWrapper(socket, encryptor, '
+                  'decryptor) and EncryptedFileObjectWrapper(file object, '
+                  'the same decryptor)')
+        report.ok(R, 'online mode: join(hash(server id, secret, public '
+                  'key)) before the response; offline: no join (%d modes)'
+                  % len(modes))
+    elif not prob:
+        raise AnalysisError('encryption arm: no returning path', fi.node,
+                            rel(fi.path))
+
+
+def wrapper_roles(db, S, ci):
+    """{'raw': attr, 'enc': attr, 'dec': attr} of a cipher wrapper class,
+    from what its send / recv / read methods do."""
+    roles = {}
+    for mname, role in (('send', 'enc'), ('recv', 'dec'), ('read', 'dec')):
+        m = db.find_method(ci, mname)
+        if m is None:
             continue
-        inn = M.cfg_nodes_of(fi, installs[attr])
-        if wn and inn and all(g.dominates(a, b) for a in wn for b in inn):
-            report.ok(R, 'response write dominates the %s wrapper' % attr)
-        else:
-            report.violation(R, 'enc:wrapper-before-write:%s' % attr,
-                             fi.path, installs[attr], fi.qualname,
-                             'the %s wrapper is installed before the '
-                             'response is written: the response itself '
-                             'would be encrypted' % attr)
-    # ---- cipher and wrappers
-    mk = find_calls(body, lambda c: callee_is(c, ENC, 'create_AES_cipher'))
-    if len(mk) == 1 and [ast.unparse(a) for a in mk[0].args] == [sec]:
-        report.ok(R, 'cipher = create_AES_cipher(%s)' % sec)
-        cvar = assigned_from(body, mk[0])
-        cvar = cvar.id if isinstance(cvar, ast.Name) else None
-    else:
-        report.violation(R, 'enc:cipher-secret', fi.path, st, fi.qualname,
-                         'the cipher is not created exactly once from the '
-                         'secret that was sent to the server')
-        cvar = None
-    facts['cipher_var'] = cvar
-    encs = find_calls(body, lambda c: isinstance(c.func, ast.Attribute)
-                      and c.func.attr == 'encryptor'
-                      and ast.unparse(c.func.value) == cvar)
-    decs = find_calls(body, lambda c: isinstance(c.func, ast.Attribute)
-                      and c.func.attr == 'decryptor'
-                      and ast.unparse(c.func.value) == cvar)
-    if len(encs) == 1 and len(decs) == 1:
-        ev = assigned_from(body, encs[0])
-        dv = assigned_from(body, decs[0])
-        ev = ev.id if isinstance(ev, ast.Name) else None
-        dv = dv.id if isinstance(dv, ast.Name) else None
-        report.ok(R, 'one encryptor and one decryptor per login')
-    else:
-        report.violation(R, 'enc:cipher-contexts', fi.path, st, fi.qualname,
-                         'expected exactly one cipher.encryptor() and one '
-                         'cipher.decryptor() (found %d / %d): each extra '
-                         'context restarts the CFB8 stream'
-                         % (len(encs), len(decs)))
-        ev = dv = None
-    facts['enc_var'], facts['dec_var'] = ev, dv
-    want_w = {'socket': ('EncryptedSocketWrapper',
-                         {'socket': 'OLD', 'encryptor': ev, 'decryptor': dv}),
-              'file_object': ('EncryptedFileObjectWrapper',
-                              {'file_object': 'OLD', 'decryptor': dv})}
-    for attr, asn2 in installs.items():
-        cname, wargs = want_w[attr]
-        val = asn2.value
-        ent = db.resolve_dotted(fi.module, val.func) if isinstance(
-            val, ast.Call) else None
-        if not (hasattr(ent, 'attrs') and ent.name == cname):
-            report.violation(R, 'enc:wrapper-class:%s' % attr, fi.path, asn2,
-                             fi.qualname, 'connection.%s is replaced by %s, '
-                             'not by %s' % (attr, ast.unparse(val)[:40],
-                                            cname))
-            continue
-        init = db.find_method(ent, '__init__')
-        am = map_args(init, val, skip_first=True)
-        if am is None:
-            raise AnalysisError('cannot map wrapper arguments', val,
-                                rel(fi.path))
-        old = ast.unparse(asn2.targets[0])
-        ok = True
-        for p, wv in wargs.items():
-            gv = ast.unparse(am[p]) if p in am else None
-            if wv == 'OLD':
-                if gv != old:
-                    ok = False
-            elif gv != wv:
-                ok = False
-        if ok and ev and dv:
-            report.ok(R, '%s = %s' % (old, ast.unparse(val)))
-        else:
-            report.violation(R, 'enc:wrapper-args:%s' % attr, fi.path, asn2,
-                             fi.qualname, 'wrapper built as %s; expected the '
-                             'old %s with encryptor=%s / decryptor=%s'
-                             % (ast.unparse(val), attr, ev, dv))
-    # ---- session join
-    joins = find_calls(body, lambda c: isinstance(c.func, ast.Attribute)
-                       and c.func.attr == 'join'
-                       and 'auth_token' in ast.unparse(c.func.value))
-    if len(joins) != 1:
-        report.violation(R, 'enc:join-count', fi.path, st, fi.qualname,
-                         'expected exactly one auth_token.join() in the '
-                         'arm, found %d' % len(joins))
-    else:
-        jn = M.cfg_nodes_of(fi, joins[0])
-        conds = []
-        for n in jn:
-            conds = boolfn.path_conditions(g, n)
-        ctext = [(ast.unparse(e), t) for e, t in conds
-                 if 'packet_name' not in ast.unparse(e)]
-        want1 = ("%s.server_id != '-'" % pk, True)
-        tok = [c for c in ctext if 'auth_token' in c[0]]
-        online = [c for c in ctext if 'server_id' in c[0]]
-        ok1 = len(online) == 1 and boolfn.same_function(
-            ast.parse(online[0][0] if online[0][1] else
-                      'not (%s)' % online[0][0], mode='eval').body,
-            ast.parse(want1[0], mode='eval').body)
-        ok2 = len(tok) == 1
-        if ok1 and ok2 and len(ctext) == 2:
-            report.ok(R, 'join attempted iff server_id != "-" and a token '
-                      'exists')
-        else:
-            report.violation(R, 'enc:join-guard', fi.path, joins[0],
-                             fi.qualname, 'the session join is guarded by '
-                             '%s; it must happen exactly when the server is '
-                             'in online mode (server_id != "-") and a token '
-                             'exists' % ctext)
-        if wn and jn and any(g.exists_path(a, lambda x: x in jn)
-                             for a in wn):
-            report.violation(R, 'enc:join-after-response', fi.path, joins[0],
-                             fi.qualname, 'the session join happens after '
-                             'the response: the server checks the session '
-                             'as soon as it gets the response')
-        else:
-            report.ok(R, 'join precedes the response')
-    return facts
+        me = sy(m.params[0])
+        for p in S.run(m):
+            for e in p.flat(('call',)):
+                recv = e.fn[1] if e.fn[0] == 'attr' else e.fn[2] \
+                    if e.fn[0] == 'fn' else None
+                if recv is None or recv[0] != 'attr' or \
+                        struct(recv[1]) != me:
+                    continue
+                if e.method() == 'update':
+                    roles[role] = recv[2]
+                elif e.method() == mname:
+                    roles['raw'] = recv[2]
+    return roles
 
 
-_PC = {}
-
-
-def Proto_cache(db):
-    if 'p' not in _PC:
-        _PC['p'] = Proto(db)
-    return _PC['p']
-
-
-def compression_arm(report, db, cg, M, fi, arms):
+# ---------------------------------------------------------------------------
+def compression_arm(report, db, M, fi, arms):
     R = report.rule('R10.2', 'compression arm: sets the threshold from the '
                     'packet and enables compression')
-    if 'set compression' not in arms:
+    ps = arms.get('set compression')
+    if not ps:
         report.violation(R, 'comp:missing', fi.path, fi.node, fi.qualname,
                          'no arm for set compression')
         return
-    st, body = arms['set compression']
-    pk = fi.params[1]
-    stores = {}
-    for s in body:
-        for x in ast.walk(s):
-            if isinstance(x, ast.Assign) and len(x.targets) == 1 and \
-                    isinstance(x.targets[0], ast.Attribute):
-                stores[x.targets[0].attr] = ast.unparse(x.value)
-    if stores.get('compression_threshold') == '%s.threshold' % pk and \
-            stores.get('compression_enabled') == 'True':
-        report.ok(R, 'options.compression_threshold = packet.threshold; '
-                  'options.compression_enabled = True')
-    else:
-        report.violation(R, 'comp:stores', fi.path, st, fi.qualname,
-                         'the arm stores %s; it must set the threshold from '
-                         'the packet and enable compression, otherwise '
-                         'every following frame is mis-framed' % stores)
+    me, pk = sy(fi.params[0]), sy(fi.params[1])
+    opts = at(me, 'connection', 'options')
+    for p in ps:
+        stores = {e.attr: e.value for e in p.flat(('store',))
+                  if struct(e.base) == opts}
+        if struct(stores.get('compression_threshold', ('none',))) == at(
+                pk, 'threshold') and stores.get('compression_enabled') == \
+                ('const', True) and p.returns:
+            report.ok(R, 'options.compression_threshold = packet.threshold; '
+                      'options.compression_enabled = True')
+        else:
+            report.violation(R, 'comp:stores', fi.path, fi.node, fi.qualname,
+                             'the arm stores %s; it must set the threshold '
+                             'from the packet and enable compression, '
+                             'otherwise every following frame is mis-framed'
+                             % {k: show(v) for k, v in sorted(
+                                 stores.items())})
 
 
-def plugin_arm(report, db, cg, M, fi, arms):
+def plugin_arm(report, db, M, P, fi, arms):
     R = report.rule('R10.3', 'plugin arm: exactly one unsuccessful response '
                     'carrying the request id')
-    if 'login plugin request' not in arms:
+    ps = arms.get('login plugin request')
+    if not ps:
         report.violation(R, 'plugin:missing', fi.path, fi.node, fi.qualname,
                          'no arm for login plugin requests: the server '
                          'waits for a response forever')
         return
-    st, body = arms['login plugin request']
-    pk = fi.params[1]
-    writes = find_calls(body, lambda c: isinstance(c.func, ast.Attribute)
-                        and c.func.attr == 'write_packet')
-    g = cfg_of(fi)
-    loops = [x for s in body for x in ast.walk(s)
-             if isinstance(x, (ast.For, ast.While))]
-    if len(writes) != 1 or loops:
-        report.violation(R, 'plugin:count', fi.path, st, fi.qualname,
-                         'a plugin request is answered %s times'
-                         % ('several' if loops else len(writes)))
-        return
-    a = writes[0].args[0] if writes[0].args else None
-    vals = {}
-    cname = None
-    if isinstance(a, ast.Call):
-        ent = db.resolve_dotted(fi.module, a.func)
-        cname = getattr(ent, 'name', None)
-        vals = {k.arg: ast.unparse(k.value) for k in a.keywords}
-    elif isinstance(a, ast.Name):
-        for s in body:
-            for x in ast.walk(s):
-                if isinstance(x, ast.Assign) and isinstance(
-                        x.targets[0], ast.Name) and \
-                        x.targets[0].id == a.id and isinstance(x.value,
-                                                               ast.Call):
-                    ent = db.resolve_dotted(fi.module, x.value.func)
-                    cname = getattr(ent, 'name', None)
-                    vals.update({k.arg: ast.unparse(k.value)
-                                 for k in x.value.keywords})
-                if isinstance(x, ast.Assign) and isinstance(
-                        x.targets[0], ast.Attribute) and \
-                        ast.unparse(x.targets[0].value) == a.id:
-                    vals[x.targets[0].attr] = ast.unparse(x.value)
-    if cname == 'PluginResponsePacket' and \
-            vals.get('message_id') == '%s.message_id' % pk and \
-            vals.get('successful') == 'False' and 'data' not in vals:
-        report.ok(R, 'PluginResponsePacket(message_id=packet.message_id, '
-                  'successful=False)')
-    else:
-        report.violation(R, 'plugin:response', fi.path, writes[0],
-                         fi.qualname, 'the default answer is %s(%s); it '
-                         'must echo the request id and be unsuccessful'
-                         % (cname, vals))
-    # the answer is taken on every path through the arm
-    wn = M.cfg_nodes_of(fi, writes[0])
-    tests = [n for n in g.reachable_nodes() if n.kind == 'test'
-             and n.ast is st.test]
-    if wn and tests and all(
-            g.exists_path(t, lambda x: x is g.exit,
-                          avoid=lambda x: x in wn,
-                          start_labels=('true',)) is None for t in tests):
-        report.ok(R, 'answered on every path through the arm')
-    else:
-        report.violation(R, 'plugin:skipped', fi.path, st, fi.qualname,
-                         'a path through the arm sends no response')
+    pk = sy(fi.params[1])
+    for p in ps:
+        if not p.returns:
+            continue
+        writes = [e for e in p.flat(('call',))
+                  if e.method() == 'write_packet']
+        if any(e.loops for e in writes) or len(writes) > 1:
+            report.violation(R, 'plugin:count', fi.path, writes[0].node,
+                             fi.qualname, 'a plugin request is answered '
+                             'several times')
+            continue
+        if not writes:
+            report.violation(R, 'plugin:skipped', fi.path, fi.node,
+                             fi.qualname, 'a path through the arm sends no '
+                             'response [%s]' % p.cond_text())
+            continue
+        wp = shared.written_packets(p, P, db)
+        cname = wp[0][1][2].split('.')[-1] if wp else None
+        fields = wp[0][2] if wp else {}
+        vals = {k: v for k, v in fields.items() if k != 'context'}
+        if cname == 'PluginResponsePacket' and \
+                struct(vals.get('message_id', ('none',))) == at(
+                    pk, 'message_id') and \
+                vals.get('successful') == ('const', False) and \
+                'data' not in vals:
+            report.ok(R, 'PluginResponsePacket(message_id=packet.message_id, '
+                      'successful=False), once')
+        else:
+            report.violation(R, 'plugin:response', fi.path, writes[0].node,
+                             fi.qualname, 'the default answer is %s(%s); it '
+                             'must echo the request id and be unsuccessful'
+                             % (cname, {k: show(v) for k, v in
+                                        sorted(vals.items())}))
 
 
-def success_arm(report, db, cg, M, fi, arms):
+def success_arm(report, db, M, fi, arms):
     R = report.rule('R10.4', 'success arm installs the play reactor')
-    if 'login success' not in arms:
+    ps = arms.get('login success')
+    if not ps:
         report.violation(R, 'success:missing', fi.path, fi.node,
                          fi.qualname, 'no arm for login success')
         return
-    st, body = arms['login success']
-    ok = False
-    for s in body:
-        for x in ast.walk(s):
-            if isinstance(x, ast.Assign) and isinstance(
-                    x.targets[0], ast.Attribute) and \
-                    x.targets[0].attr == 'reactor' and \
-                    M.is_conn_expr(fi, x.targets[0].value) and \
-                    isinstance(x.value, ast.Call):
-                ent = db.resolve_dotted(fi.module, x.value.func)
-                if getattr(ent, 'name', None) == 'PlayingReactor' and \
-                        len(x.value.args) == 1 and M.is_conn_expr(
-                            fi, x.value.args[0]):
-                    ok = True
-    if ok:
-        report.ok(R, 'connection.reactor = PlayingReactor(connection)')
-    else:
-        report.violation(R, 'success:reactor', fi.path, st, fi.qualname,
-                         'login success does not switch the connection to '
-                         'the play reactor')
+    conn = at(sy(fi.params[0]), 'connection')
+    for p in ps:
+        st = [e for e in p.flat(('store',)) if struct(e.base) == conn
+              and e.attr == 'reactor']
+        ok = False
+        if len(st) == 1 and p.returns:
+            v = st[0].value
+            ok = v[0] == 'obj' and v[2].split('.')[-1] == 'PlayingReactor' \
+                and struct(p.heap.get((v, 'connection'), ('none',))) == conn
+        if ok:
+            report.ok(R, 'connection.reactor = PlayingReactor(connection)')
+        else:
+            report.violation(R, 'success:reactor', fi.path, fi.node,
+                             fi.qualname, 'login success does not switch '
+                             'the connection to the play reactor')
 
 
-def disconnect_arm(report, db, cg, M, fi, arms):
+# ---------------------------------------------------------------------------
+def text_source_ok(t, pk):
+    """The text matched / reported is the raw reason or the "text" member
+    of the parsed reason -- never the parsed JSON value itself."""
+    if struct(t) == at(pk, 'json_data'):
+        return True
+    if t[0] == 'op' and t[1] == 'str':
+        return True
+    if t[0] == 'op' and t[1] == 'index' and t[2][1] == ('const', 'text'):
+        b = t[2][0]
+        return b[0] == 'call' and b[1] == ('ext', 'json.loads')
+    if t[0] == 'call' and t[1][0] == 'attr' and t[1][2] == 'get' and \
+            t[2][:1] == (('const', 'text'),):
+        b = t[1][1]
+        return b[0] == 'call' and b[1] == ('ext', 'json.loads')
+    return False
+
+
+def disconnect_arm(report, db, S, M, fi, arms):
     R = report.rule('R10.5', 'disconnect arm: every path raises -- a login '
                     'failure carrying the server text, or a version '
                     'mismatch for the two "Outdated" messages')
-    if 'disconnect' not in arms:
+    ps = arms.get('disconnect')
+    if not ps:
         report.violation(R, 'disc:missing', fi.path, fi.node, fi.qualname,
                          'no arm for a disconnect during login: the '
                          'rejection passes silently')
         return
-    st, body = arms['disconnect']
-    g = cfg_of(fi)
+    pk = sy(fi.params[1])
     vm = M.conn_method('_version_mismatch')
-    gv = cfg_of(vm)
-    if gv.exit in gv.reachable_nodes():
+    if S.never_returns(vm):
+        report.ok(R, '_version_mismatch raises on every path')
+    else:
         report.violation(R, 'disc:mismatch-returns', vm.path, vm.node,
                          vm.qualname, '_version_mismatch can return '
                          'normally: the caller then falls through')
-        vm_raises = False
-    else:
-        report.ok(R, '_version_mismatch raises on every path')
-        vm_raises = True
-    tests = [n for n in g.reachable_nodes() if n.kind == 'test'
-             and n.ast is st.test]
-    if not tests:
-        raise AnalysisError('disconnect arm not on the CFG', st,
-                            rel(fi.path))
-
-    def is_vm_call(n):
-        return n.ast is not None and any(
-            any(m is vm for m, _, _ in cg.callee_funcs(fi, c))
-            for c in n.calls())
-    pth = g.exists_path(tests[0], lambda x: x is g.exit,
-                        avoid=lambda x: vm_raises and is_vm_call(x),
-                        start_labels=('true',),
-                        labels=('next', 'true', 'false', 'return', 'break',
-                                'continue'))
-    if pth is None:
-        report.ok(R, 'no normal exit from the arm')
-    else:
-        where = [x for x in pth if x.ast is not None][-1]
-        report.violation(R, 'disc:silent', fi.path, where.ast, fi.qualname,
+    silent = [p for p in ps if p.returns]
+    if silent:
+        report.violation(R, 'disc:silent', fi.path, fi.node, fi.qualname,
                          'a path through the disconnect arm returns '
-                         'normally: the server\'s rejection is swallowed')
-    # LoginDisconnect carries the server's message
-    rz = [x for s in body for x in ast.walk(s) if isinstance(x, ast.Raise)
-          and x.exc is not None and 'LoginDisconnect' in ast.unparse(x.exc)]
-    if rz and any('msg' in ast.unparse(r.exc) or '%s.json_data' % fi.params[1]
-                  in ast.unparse(r.exc) for r in rz):
+                         'normally [%s]: the server\'s rejection is '
+                         'swallowed' % silent[0].cond_text())
+    else:
+        report.ok(R, 'no normal exit from the arm')
+    pats = {}
+    carried = False
+    bad_src = None
+    vcalls = []
+    for p in ps:
+        matched = None
+        for e in p.flat(('call',)):
+            if e.fn[0] == 'ext' and e.fn[1] in ('re.match', 're.fullmatch',
+                                                're.search'):
+                pats[id(e.node)] = e
+                matched = e
+                if len(e.args) > 1 and not text_source_ok(e.args[1], pk):
+                    bad_src = (e, e.args[1])
+            if e.calls(vm):
+                vcalls.append((p, e))
+        if p.raises and len(p.outcome) == 3:
+            v = p.outcome[1]
+            if v[0] == 'obj' and v[2].split('.')[-1] == 'LoginDisconnect':
+                msg = p.heap.get((v, 'args'))
+                parts = [t for t in subterms(msg)] if msg else []
+                texts = [t for t in parts if text_source_ok(t, pk)
+                         and t[0] != 'op' or (
+                             t[0] == 'op' and t[1] == 'index'
+                             and text_source_ok(t, pk))]
+                if texts:
+                    carried = True
+                for t in parts:
+                    if t[0] == 'call' and t[1] == ('ext', 'json.loads') and \
+                            not any(x[0] == 'op' and x[1] == 'index'
+                                    and x[2][0] == t for x in parts):
+                        bad_src = (None, t)
+    if carried:
         report.ok(R, 'LoginDisconnect interpolates the server text')
     else:
-        report.violation(R, 'disc:message', fi.path, st, fi.qualname,
+        report.violation(R, 'disc:message', fi.path, fi.node, fi.qualname,
                          'no LoginDisconnect carrying the server\'s message '
                          'is raised')
-    # what reaches the string consumers (re.match, %-interpolation) is the
-    # chat object's 'text' member or the raw data -- never the parsed JSON
-    # value itself, which may be a list / number / null for legal replies
-    pk = fi.params[1]
-    mvars = set()
-    for s in body:
-        for x in ast.walk(s):
-            if isinstance(x, ast.Call) and ast.unparse(x.func) in (
-                    're.match', 're.fullmatch', 're.search') and \
-                    len(x.args) > 1 and isinstance(x.args[1], ast.Name):
-                mvars.add(x.args[1].id)
-    parsed = set()
-    for s in body:
-        for x in ast.walk(s):
-            if isinstance(x, ast.Assign) and isinstance(x.targets[0],
-                                                        ast.Name) and \
-                    isinstance(x.value, ast.Call) and \
-                    ast.unparse(x.value.func) == 'json.loads':
-                parsed.add(x.targets[0].id)
-
-    def source_ok(e):
-        if isinstance(e, ast.IfExp):
-            return source_ok(e.body) and source_ok(e.orelse)
-        t = ast.unparse(e)
-        if t == '%s.json_data' % pk:
-            return True
-        if isinstance(e, ast.Call) and ast.unparse(e.func) == 'str':
-            return True
-        if isinstance(e, ast.Subscript) and isinstance(e.slice,
-                                                       ast.Constant) and \
-                e.slice.value == 'text':
-            b = e.value
-            return (isinstance(b, ast.Call) and ast.unparse(b.func) ==
-                    'json.loads') or (isinstance(b, ast.Name)
-                                      and b.id in parsed)
-        return False
-    bad_src = []
-    for s in body:
-        for x in ast.walk(s):
-            if isinstance(x, ast.Assign) and isinstance(
-                    x.targets[0], ast.Name) and x.targets[0].id in mvars \
-                    and not source_ok(x.value):
-                bad_src.append(x)
-    if mvars and not bad_src:
+    if bad_src:
+        report.violation(R, 'disc:message-source', fi.path,
+                         bad_src[0].node if bad_src[0] else fi.node,
+                         fi.qualname, 'the text matched and reported is '
+                         'taken from %s: a reason that is valid JSON but not '
+                         'a chat object with a string "text" (an array of '
+                         'components, null, a number) reaches re.match and '
+                         'fails with TypeError instead of a LoginDisconnect'
+                         % show(bad_src[1]))
+    elif pats:
         report.ok(R, 'message text comes from the "text" member or the raw '
                   'data')
-    for x in bad_src:
-        report.violation(R, 'disc:message-source', fi.path, x, fi.qualname,
-                         'the text matched and reported is taken from %s: a '
-                         'reason that is valid JSON but not a chat object '
-                         'with a string "text" (an array of components, '
-                         'null, a number) reaches re.match and fails with '
-                         'TypeError instead of a LoginDisconnect'
-                         % ast.unparse(x.value))
-    # the two "Outdated" forms
-    pats = [x for s in body for x in ast.walk(s) if isinstance(x, ast.Call)
-            and ast.unparse(x.func) in ('re.match', 're.fullmatch',
-                                        're.search')]
-    if len(pats) != 1 or not isinstance(pats[0].args[0], ast.Constant):
-        report.violation(R, 'disc:pattern', fi.path, st, fi.qualname,
+    consts = set()
+    fns = set()
+    for e in pats.values():
+        fns.add(e.fn[1].split('.')[1])
+        consts.add(e.args[0] if e.args else None)
+    if len(consts) != 1 or not is_const(list(consts)[0]) or len(fns) != 1:
+        report.violation(R, 'disc:pattern', fi.path, fi.node, fi.qualname,
                          'the "Outdated ..." messages are not recognised by '
                          'one constant pattern')
         return
-    pat = pats[0].args[0].value
-    fn = getattr(re, ast.unparse(pats[0].func).split('.')[1])
+    pat = list(consts)[0][1]
+    fn = getattr(re, list(fns)[0])
+    pnode = list(pats.values())[0].node
     good = {"Outdated client! Please use 1.16.5": '1.16.5',
             "Outdated server! I'm still on 1.8.9": '1.8.9',
             "Outdated client! Please use 21w07a": '21w07a'}
@@ -641,49 +596,65 @@ def disconnect_arm(report, db, cg, M, fi, arms):
     except re.error as e:
         probs.append('pattern does not compile: %s' % e)
     if probs:
-        report.violation(R, 'disc:pattern-language', fi.path, pats[0],
+        report.violation(R, 'disc:pattern-language', fi.path, pnode,
                          fi.qualname, 'the outdated-version pattern %s'
                          % '; '.join(probs[:3]))
     else:
         report.ok(R, 'pattern accepts exactly the two documented forms and '
                   'captures the version')
-    vcalls = find_calls(body, lambda c: any(
-        m is vm for m, _, _ in cg.callee_funcs(fi, c)))
-    if vcalls and all(any(k.arg == 'server_version' for k in c.keywords)
-                      for c in vcalls):
-        report.ok(R, '_version_mismatch(server_version=ver)')
+    good_args = bool(vcalls)
+    for p, e in vcalls:
+        kw = dict(e.kwargs)
+        sv = kw.get('server_version')
+        if sv is None:
+            a = [x for x in e.args if x[0] == 'call']
+            names = vm.params[1:]
+            if 'server_version' in names and len(e.args) > names.index(
+                    'server_version'):
+                sv = e.args[names.index('server_version')]
+        if not (sv is not None and sv[0] == 'call' and sv[1][0] == 'attr'
+                and sv[1][2] == 'group' and sv[2] == (('const', 'ver'),)):
+            good_args = False
+        # only when the pattern matched
+        m = sv[1][1] if sv is not None and sv[0] == 'call' and \
+            sv[1][0] == 'attr' else None
+        if m is None or not any(a[1] == 'truth' and pol and a[2][0] == m
+                                or a[1] == 'is' and not pol and a[2][0] == m
+                                for a, pol, _ in p.conds):
+            good_args = False
+    if good_args:
+        report.ok(R, '_version_mismatch(server_version=ver) when the '
+                  'pattern matched')
     else:
-        report.violation(R, 'disc:mismatch-args', fi.path, st, fi.qualname,
-                         'the outdated branch does not raise a version '
-                         'mismatch naming the server\'s version')
+        report.violation(R, 'disc:mismatch-args', fi.path, fi.node,
+                         fi.qualname, 'the outdated branch does not raise a '
+                         'version mismatch naming the server\'s version')
 
 
-def stateless(report, db, cg, M, fi, lr):
+def stateless(report, db, M, fi, paths):
     R = report.rule('R10.6', 'the dispatch is stateless: react keeps no '
                     'state of its own between packets, so per-arm facts '
                     'cover every order of steps')
-    me = fi.params[0]
-    stores = [n for n in ast.walk(fi.node) if isinstance(n, ast.Attribute)
-              and isinstance(n.ctx, ast.Store)
-              and isinstance(n.value, ast.Name) and n.value.id == me]
-    if stores:
-        for s in stores:
-            report.violation(R, 'stateful:%s' % s.attr, fi.path, s,
-                             fi.qualname, 'react stores self.%s: the '
-                             'reaction to a packet depends on earlier '
-                             'packets' % s.attr)
-    else:
+    me = sy(fi.params[0])
+    stores = {}
+    reads = {}
+    for p in paths:
+        for e in p.flat(('store',)):
+            if struct(e.base) == me:
+                stores.setdefault(e.attr, e)
+        for t in path_terms(p):
+            if t[0] == 'attr' and t[1] == me and t[2] != 'connection':
+                reads.setdefault(t[2], p)
+    for attr, e in sorted(stores.items()):
+        report.violation(R, 'stateful:%s' % attr, fi.path, e.node,
+                         fi.qualname, 'react stores self.%s: the reaction '
+                         'to a packet depends on earlier packets' % attr)
+    if not stores:
         report.ok(R, 'react assigns no attribute of the reactor')
-    reads = [n for n in ast.walk(fi.node) if isinstance(n, ast.Attribute)
-             and isinstance(n.ctx, ast.Load)
-             and isinstance(n.value, ast.Name) and n.value.id == me
-             and n.attr != 'connection']
-    if reads:
-        for r in reads:
-            report.violation(R, 'stateful-read:%s' % r.attr, fi.path, r,
-                             fi.qualname, 'react consults self.%s'
-                             % r.attr)
-    else:
+    for attr, p in sorted(reads.items()):
+        report.violation(R, 'stateful-read:%s' % attr, fi.path, fi.node,
+                         fi.qualname, 'react consults self.%s' % attr)
+    if not reads:
         report.ok(R, 'react reads only self.connection')
 
 
